@@ -5,7 +5,7 @@ use crate::labs::Rec;
 use crate::util::*;
 use rand::{Rng, SeedableRng};
 use serde_json::{json, Value};
-use tonic::metadata::{Ascii, Binary, KeyAndValueRef, KeyRef, MetadataKey, MetadataMap, MetadataValue, ValueRef};
+use tonic::metadata::{Ascii, Binary, Entry, KeyAndMutValueRef, KeyAndValueRef, KeyRef, MetadataKey, MetadataMap, MetadataValue, ValueRef, ValueRefMut};
 
 pub fn run(stim: &Value, rec: &Rec) {
     let mut m = MetadataMap::new();
@@ -53,7 +53,27 @@ pub fn run(stim: &Value, rec: &Rec) {
     }).filter(|(n, v)| n != v).map(|(n, v)| json!({"nb": bytes_json(n.as_bytes()), "asked": bytes_json(v.as_bytes()),
         "get": r.get(v.as_str()).is_some(), "get_bin": r.get_bin(v.as_str()).is_some(),
         "all": r.get_all(v.as_str()).iter().count() as u64, "all_bin": r.get_all_bin(v.as_str()).iter().count() as u64})).collect();
-    rec.ev(json!({"e":"recv","per":per,"iter":iter,"keys":keys,"values_ascii":va,"values_bin":vb,"len":r.len() as u64,"variants":variants}));
+    // the remaining typed views: mutable iterators, get_mut / get_bin_mut, the entry API, and remove / remove_bin (on a copy)
+    let mut r2 = r.clone();
+    let iter_mut: Vec<Value> = r2.iter_mut().map(|kv| match kv { KeyAndMutValueRef::Ascii(k, _) => json!({"nb": bytes_json(k.as_str().as_bytes()), "bin": false}), KeyAndMutValueRef::Binary(k, _) => json!({"nb": bytes_json(k.as_str().as_bytes()), "bin": true}) }).collect();
+    let (mut vma, mut vmb) = (0u64, 0u64);
+    for v in r2.values_mut() { match v { ValueRefMut::Ascii(_) => vma += 1, ValueRefMut::Binary(_) => vmb += 1 } }
+    let other: Vec<Value> = names.iter().map(|n| {
+        let gm = r2.get_mut(n.as_str()).is_some();
+        let gbm = r2.get_bin_mut(n.as_str()).is_some();
+        let ent = match r2.entry(n.as_str()) { Ok(Entry::Occupied(_)) => "occupied", Ok(Entry::Vacant(_)) => "vacant", Err(_) => "invalid" };
+        let entb = match r2.entry_bin(n.as_str()) { Ok(Entry::Occupied(_)) => "occupied", Ok(Entry::Vacant(_)) => "vacant", Err(_) => "invalid" };
+        let mut r3 = r.clone();
+        let rm = r3.remove(n.as_str()).is_some();
+        let left_after_rm = r3.len() as u64;
+        let mut r4 = r.clone();
+        let rmb = r4.remove_bin(n.as_str()).is_some();
+        let left_after_rmb = r4.len() as u64;
+        json!({"nb": bytes_json(n.as_bytes()), "get_mut": gm, "get_bin_mut": gbm, "entry": ent, "entry_bin": entb, "remove": rm, "remove_bin": rmb,
+               "left_after_remove": left_after_rm, "left_after_remove_bin": left_after_rmb, "count": r.get_all(n.as_str()).iter().count() as u64 + r.get_all_bin(n.as_str()).iter().count() as u64})
+    }).collect();
+    rec.ev(json!({"e":"recv","per":per,"iter":iter,"keys":keys,"values_ascii":va,"values_bin":vb,"len":r.len() as u64,"variants":variants,
+                  "iter_mut":iter_mut,"values_mut_ascii":vma,"values_mut_bin":vmb,"other":other}));
 }
 
 pub fn gen(seed: u64, tier: &str) -> Vec<Value> {
